@@ -1,6 +1,7 @@
 import BHS.Props.C03
 import BHS.Props.SqlShape.Add
 import BHS.Props.RepoWritesGen
+import BHS.Props.ImportRestart
 open BHS.Props.C03
 #print axioms C03_stored_row
 #print axioms C03_work_exact
@@ -16,3 +17,8 @@ open BHS.Props.C03
 #print axioms BHS.Props.SqlShape.add_statements
 #print axioms BHS.Props.RepoWritesGen.Gen_AddHeaderToDatabase_refines
 #print axioms BHS.Props.RepoWritesGen.AddHeaderToDatabase_atomic
+#print axioms BHS.Props.ImportRestart.import_nonempty_noop
+#print axioms BHS.Props.ImportRestart.import_nonempty_noop_db
+#print axioms BHS.Props.ImportRestart.import_changes_only_an_empty_table
+#print axioms BHS.Props.ImportRestart.import_never_deletes_foreign_rows
+#print axioms BHS.Props.ImportRestart.C03_start_up_import_preserves_rows
